@@ -17,7 +17,10 @@
 (*                  the result depends on the address alone) the harness      *)
 (*                  repeats every call in descending and in a stride-permuted*)
 (*                  order and aircraft_information in both orders of the     *)
-(*                  sample; an "again" event must report no differing result *)
+(*                  sample (and once more after a call that SUPPLIES a        *)
+(*                  registration for the same address: the optional argument  *)
+(*                  may not leak into later reverse lookups); an "again"     *)
+(*                  event must report no differing result                     *)
 (*                  and a "diff" event (the two results of one address) is   *)
 (*                  accepted only if they are equal.                         *)
 (* CONFORMANCE to the allocation schemes (prints DEVIATION, never a verdict):*)
@@ -93,7 +96,11 @@ Ok(ev, pv) ==
   CASE ev.e = "t" ->
          /\ ev.out \in {"some", "none"}
          /\ ev.out = "some" => CountryOK(ev)
-         /\ Has(ev, "ai") => ev.ai.out # "panic"
+         /\ Has(ev, "ai") => /\ ev.ai.out # "panic"
+                              \* the reverse lookup of aircraft_information (no registration
+                              \* supplied in THIS call) is held to clause (3) as well
+                              /\ (ev.ai.out = "ok" /\ ev.ai.reg # <<>>)
+                                   => MarkBelongsTo(ev.ai.reg, TableCountry(ev.h))
     [] ev.e = "run" -> ev.out = "none"
     [] ev.e = "oor" -> ev.out \in {"some", "none"}
     [] ev.e = "s" -> /\ pv = <<>> \/ Less(pv, ev.reg)
